@@ -111,7 +111,7 @@ func RunC16(rep *explore.Report, tier string) {
 	if tier == "thorough" {
 		maxN, devBound, fullOrderN = 5, 2, 4
 	}
-	rep.Set("rule", fmt.Sprintf("every vector of n<=%d contributions in 0..4 with every fold flag; for n<=%d every insertion order (larger n: ascending and descending), every map iteration order with <=%d non-default choices per execution; plus 5 and 6 (thorough: 7) players with contributions in {1,2,3} inserted in ascending and descending seat order; oracle refLayers; distinct_nontrivial = distinct pot structures observed", maxN, fullOrderN, devBound))
+	rep.Set("rule", fmt.Sprintf("every vector of n<=%d contributions in 0..4 with every fold flag; for n<=%d every insertion order (larger n: ascending and descending), every map iteration order with <=%d non-default choices per execution; plus 5, 6 and 7 players with contributions in {1,2,3} and 8, 9 (thorough: 10) players with contributions in {1,2}, inserted in ascending and descending seat order; oracle refLayers; distinct_nontrivial = distinct pot structures observed", maxN, fullOrderN, devBound))
 	rep.Set("map_order_deviation_bound", int64(devBound))
 	var structures sync.Map
 	var nStruct, execs, vectors int64
@@ -152,11 +152,14 @@ func RunC16(rep *explore.Report, tier string) {
 		})
 	}
 	// reduced domain for more players: contributions in {1,2,3}, every fold flag, ascending and descending insertion
-	for _, n := range []int{5, 6, 7} {
-		if n == 7 && tier != "thorough" {
+	for _, n := range []int{5, 6, 7, 8, 9, 10} {
+		vals := []int64{1, 2, 3}
+		if n >= 8 {
+			vals = []int64{1, 2} // 8..10 players (slice capacities 8 and 16): two contribution values
+		}
+		if n == 10 && tier != "thorough" {
 			continue
 		}
-		vals := []int64{1, 2, 3}
 		asc, desc := make([]int, n), make([]int, n)
 		for i := range asc {
 			asc[i], desc[i] = i, n-1-i
@@ -210,7 +213,7 @@ func RunC02(rep *explore.Report, tier string) {
 	if tier == "thorough" {
 		maxN, devN = 5, 4
 	}
-	rep.Set("rule", fmt.Sprintf("every vector of n<=%d players x contribution 0..4 x fold flag x strength class 0..2 fed to pot.LevelList and settlement.Result exactly as the engine does (for n<=%d also every map order with <=1 non-default choice); plus 5 players with contributions in {1,2,3,4} and 6 players with contributions in {1,2,4}, strengths {0,1}; oracle refSettle on the per-player changes; distinct_nontrivial = distinct result vectors observed", maxN, devN))
+	rep.Set("rule", fmt.Sprintf("every vector of n<=%d players x contribution 0..4 x fold flag x strength class 0..2 fed to pot.LevelList and settlement.Result exactly as the engine does (for n<=%d also every map order with <=1 non-default choice); plus 5 players with contributions in {1,2,3,4} 6 players with contributions in {1,2,4} and 7 players with contributions in {1,2}, strengths {0,1}; oracle refSettle on the per-player changes; distinct_nontrivial = distinct result vectors observed", maxN, devN))
 	var execs, vectors, constrained int64
 	var outcomes sync.Map
 	var nOut int64
@@ -257,7 +260,7 @@ func RunC02(rep *explore.Report, tier string) {
 	for _, rd := range []struct {
 		n    int
 		vals []int64
-	}{{5, []int64{1, 2}}, {5, []int64{1, 2, 3, 4}}, {6, []int64{1, 2}}, {6, []int64{1, 2, 4}}} {
+	}{{5, []int64{1, 2}}, {5, []int64{1, 2, 3, 4}}, {6, []int64{1, 2}}, {6, []int64{1, 2, 4}}, {7, []int64{1, 2}}} {
 		n, vals := rd.n, rd.vals
 		total := ipow(len(vals), n) * ipow(2, n) * ipow(2, n)
 		parallel(total, n, func(w int, k int64) {
